@@ -74,17 +74,6 @@ def execute(scn, keep_log=False, hook=None):
         if fr.src != 'S':
             return
         i = rc.Id(fr.can_id)
-        k = txn[0]
-        txn[0] += 1
-        if depth[0] == 0:
-            for r in scn.get('reentrant', []):
-                if r['k'] == k:
-                    depth[0] += 1
-                    try:
-                        stats['reentrant_calls'] += 1
-                        call({'ep': r['ep'], 'pgn': 0xFECA}, reentrant=True)
-                    finally:
-                        depth[0] -= 1
         if i.pf == rc.PF_ADDRESS_CLAIM:
             if i.sa != 254:
                 last_announced[0] = i.sa
@@ -118,6 +107,22 @@ def execute(scn, keep_log=False, hook=None):
                          'msg': 'frame %08X (PF %02X) sent from address %d while the CA is %s and holds %s' % (
                              fr.can_id, i.pf, i.sa, STATE.get(state), held if state == 2 else 'no address')})
     bus.observers.append(observe)
+
+    def reenter(fr):
+        if fr.src != 'S':
+            return
+        k = txn[0]
+        txn[0] += 1
+        if depth[0] == 0:
+            for r in scn.get('reentrant', []):
+                if r['k'] == k:
+                    depth[0] += 1
+                    try:
+                        stats['reentrant_calls'] += 1
+                        call({'ep': r['ep'], 'pgn': 0xFECA}, reentrant=True)
+                    finally:
+                        depth[0] -= 1
+    bus.post_hooks.append(reenter)
 
     if scn.get('start_ms') is not None:
         sim.at(base + scn['start_ms'] * 1_000_000, lambda: ca.start(scn['delay_ms'] / 1000.0), 'op')
